@@ -348,6 +348,49 @@ def verify_unit(unit_loader, timeout_ms=10000, jobs=8, use_cvc5=False):
         res, obs = generate_target(unit, cls, fn, concrete, t[3] if len(t) > 3 else None)
         skeletons.append((res, len(_OBS), len(obs)))
         _OBS.extend(obs)
+    # ---- uncovered overrides: a repository class under contract that DEFINES a method which a standard-library mixin of its MRO also
+    #      defines, while no contract of this unit covers that name, has replaced inherited behaviour by code nobody looks at (the mixin
+    #      methods that are under contract are verified through find_source, i.e. the override itself is what gets verified).  Reported as
+    #      a stale contract (undecided), never as a violation.
+    try:
+        eng = E.Engine(unit)
+        import ast as _ast
+        concretes = []
+        for t in unit.targets:
+            c_ = (t[2] if len(t) > 2 and t[2] else t[0])
+            if c_ and c_ != "lemma:" and c_ in unit.classes and c_ not in concretes:
+                concretes.append(c_)
+        # a class that is only a base of another verified class (abstract skeleton) is looked at through that subclass
+        concretes = [c_ for c_ in concretes if not any(c_ != d_ and c_ in eng.mro(d_) for d_ in concretes)]
+        flagged = set()
+        for cname in concretes:
+            if unit.classes[cname].module.path.startswith(("env:", "stdlib:")):
+                continue
+            mro = eng.mro(cname)
+            std = [b for b in mro if b in unit.classes and unit.classes[b].module.path.startswith("stdlib:")]
+            for rc in mro:
+                rcc = unit.classes.get(rc)
+                if rcc is None or rcc.module.path.startswith(("env:", "stdlib:")):
+                    continue
+                m_, cn = eng.src_class(rc)
+                if cn is None:
+                    continue
+                for n in cn.body:
+                    if not isinstance(n, _ast.FunctionDef) or (cname, n.name) in flagged or eng.find_contract(cname, n.name) is not None:
+                        continue
+                    if any(n.name == v[0] for v in getattr(rcc, "variants", {})):
+                        continue
+                    for b in std:
+                        bm, bcn = eng.src_class(b)
+                        if bcn is not None and any(isinstance(x, _ast.FunctionDef) and x.name == n.name for x in bcn.body):
+                            flagged.add((cname, n.name))
+                            skeletons.append(({"target": "%s.%s" % (rc, n.name), "concrete": cname, "obligations": [], "status": "stale-contract",
+                                               "detail": "%s.%s (line %d) overrides the standard-library mixin %s.%s for %s but no contract of "
+                                                         "this unit covers it: uncovered override" % (rc, n.name, n.lineno, b, n.name, cname),
+                                               "info": {"file": m_.path, "line": n.lineno}}, len(_OBS), 0))
+                            break
+    except Exception:
+        pass
     _OPTS = {"timeout_ms": timeout_ms, "use_cvc5": use_cvc5}
     todo = [i for i, ob in enumerate(_OBS) if ob.result is None]
     t0 = time.time()
